@@ -132,7 +132,7 @@ pub fn run(ctx: &Ctx, ev: &mut Ev) {
         }
     }
     if ctx.want("random") {
-        let n = ctx.budget(300_000, 8_000_000);
+        let n = ctx.budget(300_000, 40_000_000);
         for _ in 0..n {
             let enc = ALL[r.below(40)]; let alpha = byte_alpha(enc);
             let prefix: Vec<u8> = (0..r.below(6)).map(|_| if r.chance(4) { *r.pick(&HOSTILE) } else { *r.pick(&alpha) }).collect();
